@@ -226,3 +226,498 @@ Proof.
     + apply hard_rspine. reflexivity.
     + unfold need. lia.
 Qed.
+
+(* ------------------------------------------------------------------ lists *)
+
+Lemma wf_seq_forallb : forall k es, wf (ESeq k es) = forallb wf es.
+Proof. intros k es. cbn [wf]. induction es as [|x r IH]; [reflexivity|]. cbn [forallb]. rewrite <- IH. reflexivity. Qed.
+
+Lemma list_ok : forall close, (close = S_RPAREN \/ close = S_RBRACKET \/ close = S_RBRACE) ->
+  forall es, Forall Main es -> forallb wf es = true -> es <> [] ->
+  forall k f, 6 * length (tcommas pp es) + 8 <= f ->
+  parse_list f close (tcommas pp es ++ TSym close :: k) = Some (es, k).
+Proof.
+  intros close Hc. induction es as [|x rest IH]; intros HM Hwf Hne k f Hf; [congruence|].
+  inversion HM as [|? ? Mx Mrest]; subst. cbn [forallb] in Hwf. apply andb_prop in Hwf as [Hwx Hwrest].
+  assert (Hcl : forall k', hard (TSym close :: k') = true /\ okfollow (TSym close :: k') = true /\
+                           N.eqb S_COMMA close = false)
+    by (intros k'; destruct Hc as [->|[->| ->]]; repeat split; reflexivity).
+  assert (Hst : forall k', starts close (pp x ++ k') = false).
+  { intros k'. pose proof (first_ok x Hwx k') as Hfb. apply firstbad_starts in Hfb as (F1 & F2 & F3 & _).
+    destruct Hc as [->|[->| ->]]; assumption. }
+  cbn [tcommas] in *. destruct rest as [|y rest].
+  - fuel f. rewrite list_S, Hst. destruct (Hcl k) as (H1 & H2 & _).
+    rewrite (sub_hard x Mx Hwx) by (assumption || (unfold need; lia)).
+    rewrite N.eqb_refl. reflexivity.
+  - rewrite app_length in Hf. cbn [length] in Hf. rewrite <- app_assoc. cbn [app].
+    fuel f. rewrite list_S, Hst.
+    rewrite (sub_hard x Mx Hwx) by (reflexivity || (unfold need; lia)).
+    destruct (Hcl k) as (_ & _ & H3). rewrite H3, N.eqb_refl.
+    rewrite IH; [reflexivity|assumption|assumption|discriminate|lia].
+Qed.
+
+Lemma tcommas_cons2 : forall A (f : A -> list tok) x y r,
+  tcommas f (x :: y :: r) = f x ++ TSym S_COMMA :: tcommas f (y :: r).
+Proof. reflexivity. Qed.
+
+Lemma list_empty : forall close k f, 1 <= f -> parse_list f close (TSym close :: k) = Some ([], k).
+Proof.
+  intros close k f Hf. fuel f. rewrite list_S. unfold starts, sym_eqb. rewrite N.eqb_refl. reflexivity.
+Qed.
+
+Lemma main_seq : forall sk es, Forall Main es -> Main (ESeq sk es).
+Proof.
+  intros sk es HM Hwf c k r f1 Ht Hr Hk Hloop f Hf.
+  rewrite wf_seq_forallb in Hwf. unfold need in Hf. rewrite pp_seq in *.
+  destruct sk.
+  - (* tuple *)
+    destruct es as [|x [|y rest]].
+    + cbn [tcommas app length] in *. fuel f. rewrite expr_S. fuel f. rewrite op_lparen_empty. apply Hloop. lia.
+    + inversion HM as [|? ? Mx _]; subst. cbn [forallb] in Hwf. apply andb_prop in Hwf as [Hwx _].
+      cbn [tcommas app length] in *. rewrite app_length in Hf. cbn [length] in Hf.
+      rewrite <- ?app_assoc. cbn [app].
+      pose proof (first_ok x Hwx (TSym S_COMMA :: TSym S_RPAREN :: k)) as Hfb. apply firstbad_starts in Hfb as (F1 & _).
+      pose proof (named_ok x Hwx (TSym S_COMMA :: TSym S_RPAREN :: k) eq_refl) as Hn.
+      fuel f. rewrite expr_S. fuel f. rewrite op_lparen by assumption. fuel f. rewrite paren_S.
+      rewrite (sub_hard x Mx Hwx) by (reflexivity || (unfold need; lia)).
+      change (N.eqb S_COMMA S_RPAREN) with false. rewrite N.eqb_refl.
+      rewrite list_empty by lia. apply Hloop. lia.
+    + inversion HM as [|? ? Mx Mrest]; subst. cbn [forallb] in Hwf. apply andb_prop in Hwf as [Hwx Hwrest].
+      rewrite tcommas_cons2 in *. cbn [app length] in Hf. rewrite ?app_length in Hf. cbn [length] in Hf.
+      rewrite ?app_length in Hf. cbn [length] in Hf.
+      cbn [app]. rewrite <- ?app_assoc. cbn [app]. rewrite <- ?app_assoc. cbn [app].
+      set (restk := TSym S_COMMA :: tcommas pp (y :: rest) ++ TSym S_RPAREN :: k).
+      pose proof (first_ok x Hwx restk) as Hfb. apply firstbad_starts in Hfb as (F1 & _).
+      pose proof (named_ok x Hwx restk eq_refl) as Hn.
+      fuel f. rewrite expr_S. fuel f. rewrite op_lparen by assumption. fuel f. rewrite paren_S.
+      rewrite (sub_hard x Mx Hwx) by (reflexivity || (unfold need; lia)). unfold restk.
+      change (N.eqb S_COMMA S_RPAREN) with false. rewrite N.eqb_refl.
+      rewrite (list_ok S_RPAREN) by (auto || discriminate || lia).
+      apply Hloop. lia.
+  - (* array *)
+    cbn [app length] in *. rewrite app_length in Hf. cbn [length] in Hf. rewrite <- ?app_assoc. cbn [app].
+    fuel f. rewrite expr_S. fuel f. rewrite op_lbracket.
+    destruct es as [|x rest].
+    + cbn [tcommas app]. rewrite list_empty by lia. apply Hloop. lia.
+    + rewrite (list_ok S_RBRACKET) by (auto || discriminate || lia). apply Hloop. lia.
+  - (* set *)
+    cbn [app length] in *. rewrite app_length in Hf. cbn [length] in Hf. rewrite <- ?app_assoc. cbn [app].
+    fuel f. rewrite expr_S. fuel f. rewrite op_lbrace.
+    destruct es as [|x rest].
+    + cbn [tcommas app]. rewrite list_empty by lia. apply Hloop. lia.
+    + rewrite (list_ok S_RBRACE) by (auto || discriminate || lia). apply Hloop. lia.
+Qed.
+
+(* ------------------------------------------------------------------ named tuples and calls *)
+
+Lemma named_S : forall f n r, parse_named (Datatypes.S f) (TId n :: TSym S_ASSIGN :: r) =
+  match parse_expr f None r with
+  | Some (e, TSym s2 :: r2) =>
+      if N.eqb s2 S_RPAREN then Some ([(n, e)], r2)
+      else if N.eqb s2 S_COMMA then
+        if starts S_RPAREN r2 then Some ([(n, e)], tl r2)
+        else match parse_named f r2 with Some (fs, r3) => Some ((n, e) :: fs, r3) | None => None end
+      else None
+  | _ => None
+  end.
+Proof. reflexivity. Qed.
+
+Lemma wf_fields : forall fs,
+  (fix go (l : list (N * expr)) : bool := match l with [] => true | (_, x) :: r => wf x && go r end) fs =
+  forallb (fun p => wf (snd p)) fs.
+Proof. induction fs as [|[n x] r IH]; [reflexivity|]. cbn [forallb snd]. rewrite <- IH. reflexivity. Qed.
+
+Lemma tfield_hd : forall n x rest k, exists t', tcommas tfield ((n, x) :: rest) ++ k = TId n :: TSym S_ASSIGN :: t'.
+Proof. intros n x [|y rest] k; cbn [tcommas tfield app]; eauto. Qed.
+
+Lemma tfield_starts : forall fs k, fs <> [] -> starts S_RPAREN (tcommas tfield fs ++ k) = false.
+Proof. intros [|[n x] rest] k H; [congruence|]. destruct (tfield_hd n x rest k) as [t' E]. rewrite E. reflexivity. Qed.
+
+Lemma named_list_ok : forall fs, Forall (fun p => Main (snd p)) fs -> forallb (fun p => wf (snd p)) fs = true -> fs <> [] ->
+  forall k f, 6 * length (tcommas tfield fs) + 8 <= f ->
+  parse_named f (tcommas tfield fs ++ TSym S_RPAREN :: k) = Some (fs, k).
+Proof.
+  induction fs as [|[n x] rest IH]; intros HM Hwf Hne k f Hf; [congruence|].
+  inversion HM as [|? ? Mx Mrest]; subst. cbn [snd] in Mx. cbn [forallb snd] in Hwf. apply andb_prop in Hwf as [Hwx Hwrest].
+  destruct rest as [|y rest].
+  - cbn [tcommas tfield app length] in *. fuel f. rewrite named_S.
+    rewrite (sub_hard x Mx Hwx) by (reflexivity || (unfold need; lia)). reflexivity.
+  - rewrite tcommas_cons2 in *. cbn [tfield app length] in *. rewrite app_length in Hf. cbn [length] in Hf.
+    rewrite <- app_assoc. cbn [app]. fuel f. rewrite named_S.
+    rewrite (sub_hard x Mx Hwx) by (reflexivity || (unfold need; lia)).
+    change (N.eqb S_COMMA S_RPAREN) with false. rewrite N.eqb_refl.
+    rewrite tfield_starts by discriminate.
+    rewrite IH; [reflexivity|assumption|assumption|discriminate|lia].
+Qed.
+
+Lemma main_named : forall fs, Forall (fun p => Main (snd p)) fs -> Main (ENamedTuple fs).
+Proof.
+  intros fs HM Hwf c k r f1 Ht Hr Hk Hloop f Hf.
+  cbn [wf] in Hwf. apply andb_prop in Hwf as [Hne Hwf]. rewrite wf_fields in Hwf.
+  unfold need in Hf. rewrite pp_named in *. cbn [app length] in *. rewrite app_length in Hf. cbn [length] in Hf.
+  rewrite <- app_assoc. cbn [app].
+  destruct fs as [|[n x] rest]; [discriminate|].
+  destruct (tfield_hd n x rest (TSym S_RPAREN :: k)) as [t' E].
+  fuel f. rewrite expr_S. fuel f. rewrite E, op_lparen_named, <- E.
+  rewrite named_list_ok by (auto || discriminate || lia). apply Hloop. lia.
+Qed.
+
+Lemma args_S_close : forall f r, parse_args (Datatypes.S f) (TSym S_RPAREN :: r) = Some ([], [], r).
+Proof. reflexivity. Qed.
+
+Lemma args_S_named : forall f n r, parse_args (Datatypes.S f) (TId n :: TSym S_ASSIGN :: r) =
+  match parse_expr f None r with
+  | Some (e, TSym s2 :: r2) =>
+      if N.eqb s2 S_RPAREN then Some ([], [(n, e)], r2)
+      else if N.eqb s2 S_COMMA then
+        match parse_args f r2 with
+        | Some ([], kw, r3) => if existsb (fun q => N.eqb n (fst q)) kw then None else Some ([], (n, e) :: kw, r3)
+        | _ => None
+        end
+      else None
+  | _ => None
+  end.
+Proof. reflexivity. Qed.
+
+Lemma args_S_pos : forall f ts, starts S_RPAREN ts = false -> named_prefix ts = false ->
+  parse_args (Datatypes.S f) ts = parse_args_pos f ts.
+Proof.
+  intros f ts H1 H2. cbn [parse_args]. rewrite H1.
+  destruct ts as [|[] ts]; try reflexivity. destruct ts as [|[] ts]; try reflexivity.
+  cbn in H2. rewrite H2. reflexivity.
+Qed.
+
+Lemma args_pos_S : forall f ts, parse_args_pos (Datatypes.S f) ts =
+  match parse_expr f None ts with
+  | Some (e, TSym s2 :: r2) =>
+      if N.eqb s2 S_RPAREN then Some ([e], [], r2)
+      else if N.eqb s2 S_COMMA then
+        match parse_args f r2 with Some (args, kw, r3) => Some (e :: args, kw, r3) | None => None end
+      else None
+  | _ => None
+  end.
+Proof. reflexivity. Qed.
+
+Lemma kw_ok : forall kw, Forall (fun p => Main (snd p)) kw -> forallb (fun p => wf (snd p)) kw = true ->
+  nodup_names kw = true -> kw <> [] ->
+  forall k f, 6 * length (tcommas tfield kw) + 8 <= f ->
+  parse_args f (tcommas tfield kw ++ TSym S_RPAREN :: k) = Some ([], kw, k).
+Proof.
+  induction kw as [|[n x] rest IH]; intros HM Hwf Hnd Hne k f Hf; [congruence|].
+  inversion HM as [|? ? Mx Mrest]; subst. cbn [snd] in Mx. cbn [forallb snd] in Hwf. apply andb_prop in Hwf as [Hwx Hwrest].
+  cbn [nodup_names] in Hnd. apply andb_prop in Hnd as [Hn1 Hnd]. apply negb_true_iff in Hn1.
+  destruct rest as [|y rest].
+  - cbn [tcommas tfield app length] in *. fuel f. rewrite args_S_named.
+    rewrite (sub_hard x Mx Hwx) by (reflexivity || (unfold need; lia)). reflexivity.
+  - rewrite tcommas_cons2 in *. cbn [tfield app length] in *. rewrite app_length in Hf. cbn [length] in Hf.
+    rewrite <- app_assoc. cbn [app]. fuel f. rewrite args_S_named.
+    rewrite (sub_hard x Mx Hwx) by (reflexivity || (unfold need; lia)).
+    change (N.eqb S_COMMA S_RPAREN) with false. rewrite N.eqb_refl.
+    rewrite IH by (assumption || discriminate || lia). rewrite Hn1. reflexivity.
+Qed.
+
+Definition argsep (args : list expr) (kw : list (N * expr)) : list tok :=
+  match args, kw with _ :: _, _ :: _ => [TSym S_COMMA] | _, _ => [] end.
+
+Lemma pos_ok : forall args kw, Forall Main args -> forallb wf args = true -> args <> [] ->
+  Forall (fun p => Main (snd p)) kw -> forallb (fun p => wf (snd p)) kw = true -> nodup_names kw = true ->
+  forall k f, 6 * (length (tcommas pp args) + length (tcommas tfield kw)) + 16 <= f ->
+  parse_args f (tcommas pp args ++ argsep args kw ++ tcommas tfield kw ++ TSym S_RPAREN :: k) = Some (args, kw, k).
+Proof.
+  induction args as [|x rest IH]; intros kw HM Hwf Hne HMk Hwk Hnd k f Hf; [congruence|].
+  inversion HM as [|? ? Mx Mrest]; subst. cbn [forallb] in Hwf. apply andb_prop in Hwf as [Hwx Hwrest].
+  destruct rest as [|y rest].
+  - cbn [tcommas length] in *.
+    destruct kw as [|kv kw'].
+    + cbn [argsep tcommas app length] in *.
+      pose proof (first_ok x Hwx (TSym S_RPAREN :: k)) as Hfb. apply firstbad_starts in Hfb as (F1 & _).
+      pose proof (named_ok x Hwx (TSym S_RPAREN :: k) eq_refl) as Hn.
+      fuel f. rewrite args_S_pos by assumption. fuel f. rewrite args_pos_S.
+      rewrite (sub_hard x Mx Hwx) by (reflexivity || (unfold need; lia)). reflexivity.
+    + cbn [argsep app].
+      set (rk := TSym S_COMMA :: tcommas tfield (kv :: kw') ++ TSym S_RPAREN :: k).
+      pose proof (first_ok x Hwx rk) as Hfb. apply firstbad_starts in Hfb as (F1 & _).
+      pose proof (named_ok x Hwx rk eq_refl) as Hn.
+      fuel f. rewrite args_S_pos by assumption. fuel f. rewrite args_pos_S.
+      rewrite (sub_hard x Mx Hwx) by (reflexivity || (unfold need; lia)). unfold rk.
+      change (N.eqb S_COMMA S_RPAREN) with false. rewrite N.eqb_refl.
+      rewrite kw_ok by (assumption || discriminate || lia). reflexivity.
+  - rewrite tcommas_cons2 in *. cbn [length] in Hf. rewrite app_length in Hf. cbn [length] in Hf.
+    rewrite <- app_assoc. cbn [app].
+    assert (Esep : argsep (x :: y :: rest) kw = argsep (y :: rest) kw) by (destruct kw; reflexivity).
+    rewrite Esep.
+    set (rk := TSym S_COMMA :: tcommas pp (y :: rest) ++ argsep (y :: rest) kw ++ tcommas tfield kw ++ TSym S_RPAREN :: k).
+    pose proof (first_ok x Hwx rk) as Hfb. apply firstbad_starts in Hfb as (F1 & _).
+    pose proof (named_ok x Hwx rk eq_refl) as Hn.
+    fuel f. rewrite args_S_pos by assumption. fuel f. rewrite args_pos_S.
+    rewrite (sub_hard x Mx Hwx) by (reflexivity || (unfold need; lia)). unfold rk.
+    change (N.eqb S_COMMA S_RPAREN) with false. rewrite N.eqb_refl.
+    rewrite IH by (assumption || discriminate || lia). reflexivity.
+Qed.
+
+Lemma call_operand : forall f m n r,
+  parse_operand (Datatypes.S f) (tname m n ++ TSym S_LPAREN :: r) =
+  match parse_args f r with Some (args, kw, r2) => Some (ECall m n args kw, r2) | None => None end.
+Proof.
+  intros f m n r.
+  assert (E : parse_operand (Datatypes.S f) (tname m n ++ TSym S_LPAREN :: r) =
+              match parse_name (tname m n ++ TSym S_LPAREN :: r) with
+              | Some (m, n, r') =>
+                  if starts S_LPAREN r' then
+                    match parse_args f (tl r') with Some (args, kw, r2) => Some (ECall m n args kw, r2) | None => None end
+                  else Some (EPathRef m n [], r')
+              | None => None
+              end) by (destruct m; reflexivity).
+  rewrite E, parse_name_ok by reflexivity. reflexivity.
+Qed.
+
+Lemma wf_list_forallb : forall es,
+  (fix go (l : list expr) : bool := match l with [] => true | x :: r => wf x && go r end) es = forallb wf es.
+Proof. induction es as [|x r IH]; [reflexivity|]. cbn [forallb]. rewrite <- IH. reflexivity. Qed.
+
+Lemma main_call : forall m fn args kw, Forall Main args -> Forall (fun p => Main (snd p)) kw -> Main (ECall m fn args kw).
+Proof.
+  intros m fn args kw HMa HMk Hwf c k r f1 Ht Hr Hk Hloop f Hf.
+  cbn [wf] in Hwf. apply andb3 in Hwf as (Hwa & Hwk & Hnd). rewrite wf_list_forallb in Hwa. rewrite wf_fields in Hwk.
+  unfold need in Hf. rewrite pp_call in *. fold (argsep args kw) in *.
+  rewrite !app_length in Hf. cbn [length] in Hf. rewrite !app_length in Hf. cbn [length] in Hf.
+  pose proof (length_tname m fn).
+  rewrite <- ?app_assoc. cbn [app]. rewrite <- ?app_assoc. cbn [app]. rewrite <- ?app_assoc. cbn [app].
+  fuel f. rewrite expr_S. fuel f. rewrite call_operand.
+  destruct args as [|x rest].
+  - cbn [tcommas argsep app] in *. destruct kw as [|kv kw'].
+    + cbn [tcommas app]. fuel f. rewrite args_S_close. apply Hloop. lia.
+    + rewrite kw_ok by (assumption || discriminate || lia). apply Hloop. lia.
+  - rewrite pos_ok by (assumption || discriminate || lia). apply Hloop. lia.
+Qed.
+
+(* ------------------------------------------------------------------ paths over an expression, indirection, shapes *)
+
+Lemma head_bare_facts : forall h, head_bare h = true ->
+  (forall c, tight c h = true) /\ (forall k, rspine h k = true).
+Proof.
+  intros h H. destruct h as [| | | | | | | | |sk es| | | | | | |]; try discriminate; try (split; reflexivity).
+Qed.
+
+Lemma okfollow_intro : forall k, starts S_DOUBLECOLON k = false -> starts S_LPAREN k = false -> starts S_ASSIGN k = false ->
+  okfollow k = true.
+Proof. intros k H1 H2 H3. unfold okfollow. rewrite H1, H2, H3. reflexivity. Qed.
+
+Lemma main_pathexpr : forall h ss, Main h -> Main (EPathExpr h ss).
+Proof.
+  intros h ss Mh Hwf c k r f1 Ht Hr Hk Hloop f Hf.
+  cbn [wf] in Hwf. apply andb_prop in Hwf as [Hwf Hws]. apply andb3 in Hwf as (Hwh & Hnp & Hne).
+  apply negb_true_iff in Hnp. destruct ss as [|s ss]; [discriminate|].
+  cbn [tight] in Ht. unfold need in Hf. rewrite pp_pathexpr in *.
+  destruct (steps_follow (s :: ss) k Hk) as (F1 & F2 & F3).
+  assert (Hl : forall f, f1 <= f -> parse_loop f c (add_steps h (s :: ss)) k = Some r)
+    by (intros f' Hf'; rewrite add_steps_head by assumption; apply Hloop; assumption).
+  destruct (head_bare h) eqn:Hb.
+  - destruct (head_bare_facts h Hb) as [Th Rh]. rewrite <- app_assoc. rewrite app_length in Hf.
+    apply (Mh Hwh c (tsteps (s :: ss) ++ k) r (f1 + 2 * length (tsteps (s :: ss)))); auto.
+    + apply okfollow_intro; assumption.
+    + intros f' Hf'. apply (loop_steps (s :: ss) h c k r f1); auto.
+    + unfold need. lia.
+  - cbn [app length] in *. rewrite !app_length in Hf. cbn [length] in Hf.
+    rewrite <- ?app_assoc. cbn [app]. rewrite <- ?app_assoc. cbn [app].
+    fuel f. rewrite expr_S. rewrite (paren_operand h Mh Hwh) by (unfold need; lia).
+    apply (loop_steps (s :: ss) h c k r f1); auto. lia.
+Qed.
+
+Definition wf_ix (ix : bool * option expr * option expr) : bool :=
+  let '(sl, a, b) := ix in
+  (match a with Some x => wf x | None => true end) &&
+  (match b with Some x => wf x | None => true end) &&
+  (if sl then match a, b with None, None => false | _, _ => true end
+   else match a, b with Some _, None => true | _, _ => false end).
+
+Lemma wf_ixs : forall ixs,
+  (fix go (l : list (bool * option expr * option expr)) : bool :=
+     match l with
+     | [] => true
+     | (sl, a, b) :: r =>
+         (match a with Some x => wf x | None => true end) &&
+         (match b with Some x => wf x | None => true end) &&
+         (if sl then match a, b with None, None => false | _, _ => true end
+          else match a, b with Some _, None => true | _, _ => false end) &&
+         go r
+     end) ixs = forallb wf_ix ixs.
+Proof. induction ixs as [|[[sl a] b] r IH]; [reflexivity|]. cbn [forallb wf_ix]. rewrite <- IH. reflexivity. Qed.
+
+Definition add_indirs (base : expr) (ixs : list (bool * option expr * option expr)) : expr := fold_left add_indir ixs base.
+
+Lemma add_indirs_indir : forall ixs x acc, add_indirs (EIndir x acc) ixs = EIndir x (acc ++ ixs).
+Proof.
+  induction ixs as [|ix ixs IH]; intros; cbn; [rewrite app_nil_r; reflexivity|].
+  unfold add_indirs in IH. rewrite IH, <- app_assoc. reflexivity.
+Qed.
+Lemma add_indirs_head : forall x ix ixs, is_indir x = false -> add_indirs x (ix :: ixs) = EIndir x (ix :: ixs).
+Proof.
+  intros x ix ixs H. unfold add_indirs. cbn [fold_left].
+  assert (E : add_indir x ix = EIndir x [ix]) by (destruct x; try discriminate; reflexivity).
+  rewrite E. apply (add_indirs_indir ixs x [ix]).
+Qed.
+
+Lemma first_parts : forall x, wf x = true -> forall k,
+  starts S_RPAREN (pp x ++ k) = false /\ starts S_RBRACKET (pp x ++ k) = false /\ starts S_RBRACE (pp x ++ k) = false /\
+  starts S_IS (pp x ++ k) = false /\ starts S_COLON (pp x ++ k) = false.
+Proof. intros x H k. apply firstbad_starts. apply first_ok; assumption. Qed.
+
+Lemma indir_loop : forall ixs base c k r f1,
+  Forall (fun t => optP Main (snd (fst t)) /\ optP Main (snd t)) ixs -> forallb wf_ix ixs = true ->
+  shifts c (prec_of S_LBRACKET) = true ->
+  (forall f, f1 <= f -> parse_loop f c (add_indirs base ixs) k = Some r) ->
+  forall f, f1 + 6 * length (flat_map tix ixs) <= f -> parse_loop f c base (flat_map tix ixs ++ k) = Some r.
+Proof.
+  induction ixs as [|[[sl a] b] ixs IH]; intros base c k r f1 HM Hwf Hs Hloop f Hf.
+  - apply Hloop. cbn in Hf. lia.
+  - inversion HM as [|? ? [Ma Mb] Mrest]; subst. cbn [fst snd] in Ma, Mb.
+    cbn [forallb] in Hwf. apply andb_prop in Hwf as [Hwix Hwrest].
+    unfold wf_ix in Hwix. apply andb3 in Hwix as (Hwa & Hwb & Hshape).
+    cbn [flat_map] in *. rewrite app_length in Hf. rewrite <- app_assoc.
+    pose proof (shifts_decide _ _ Hs) as Hd.
+    assert (Hloop' : forall f, f1 <= f -> parse_loop f c (add_indirs (add_indir base (sl, a, b)) ixs) k = Some r) by exact Hloop.
+    set (rest := flat_map tix ixs ++ k) in *.
+    destruct sl, a as [a|], b as [b|]; try discriminate; cbn [tix topt app length optP] in *.
+    + (* [a:b] *)
+      repeat (first [rewrite app_length in Hf | progress (cbn [length] in Hf)]). rewrite <- ?app_assoc. cbn [app]. rewrite <- ?app_assoc. cbn [app].
+      destruct (first_parts a Hwa (TSym S_COLON :: pp b ++ TSym S_RBRACKET :: rest)) as (_ & _ & _ & Fis & Fcol).
+      destruct (first_parts b Hwb (TSym S_RBRACKET :: rest)) as (_ & Frb & _).
+      fuel f. rewrite loop_lbracket by assumption. rewrite Hd, Fcol.
+      rewrite (sub_hard a Ma Hwa) by (reflexivity || (unfold need; lia)).
+      change (N.eqb S_COLON S_RBRACKET) with false. rewrite N.eqb_refl. rewrite Frb.
+      rewrite (sub_hard b Mb Hwb) by (reflexivity || (unfold need; lia)).
+      cbn [expect sym_eqb]. rewrite N.eqb_refl. apply (IH _ _ _ _ f1); auto. lia.
+    + (* [a:] *)
+      repeat (first [rewrite app_length in Hf | progress (cbn [length] in Hf)]). rewrite <- ?app_assoc. cbn [app].
+      destruct (first_parts a Hwa (TSym S_COLON :: TSym S_RBRACKET :: rest)) as (_ & _ & _ & Fis & Fcol).
+      fuel f. rewrite loop_lbracket by assumption. rewrite Hd, Fcol.
+      rewrite (sub_hard a Ma Hwa) by (reflexivity || (unfold need; lia)).
+      change (N.eqb S_COLON S_RBRACKET) with false. rewrite N.eqb_refl.
+      change (starts S_RBRACKET (TSym S_RBRACKET :: rest)) with true. cbn [tl].
+      apply (IH _ _ _ _ f1); auto. lia.
+    + (* [:b] *)
+      repeat (first [rewrite app_length in Hf | progress (cbn [length] in Hf)]). rewrite <- ?app_assoc. cbn [app].
+      fuel f. rewrite loop_lbracket by reflexivity. rewrite Hd.
+      change (starts S_COLON (TSym S_COLON :: pp b ++ TSym S_RBRACKET :: rest)) with true. cbn [tl].
+      rewrite (sub_hard b Mb Hwb) by (reflexivity || (unfold need; lia)).
+      cbn [expect sym_eqb]. rewrite N.eqb_refl. apply (IH _ _ _ _ f1); auto. lia.
+    + (* [a] *)
+      repeat (first [rewrite app_length in Hf | progress (cbn [length] in Hf)]). rewrite <- ?app_assoc. cbn [app].
+      destruct (first_parts a Hwa (TSym S_RBRACKET :: rest)) as (_ & _ & _ & Fis & Fcol).
+      fuel f. rewrite loop_lbracket by assumption. rewrite Hd, Fcol.
+      rewrite (sub_hard a Ma Hwa) by (reflexivity || (unfold need; lia)).
+      rewrite N.eqb_refl. apply (IH _ _ _ _ f1); auto. lia.
+Qed.
+
+Lemma main_indir : forall x ixs, Main x -> Forall (fun t => optP Main (snd (fst t)) /\ optP Main (snd t)) ixs ->
+  Main (EIndir x ixs).
+Proof.
+  intros x ixs Mx HM Hwf c k r f1 Ht Hr Hk Hloop f Hf.
+  cbn [wf] in Hwf. apply andb_prop in Hwf as [Hwf Hwixs]. apply andb3 in Hwf as (Hwx & Hni & Hne).
+  apply negb_true_iff in Hni. rewrite wf_ixs in Hwixs. destruct ixs as [|ix ixs]; [discriminate|].
+  cbn [tight] in Ht. unfold need in Hf. rewrite pp_indir in *.
+  cbn [app length] in *. rewrite !app_length in Hf. cbn [length] in Hf.
+  rewrite <- ?app_assoc. cbn [app].
+  fuel f. rewrite expr_S. rewrite (paren_operand x Mx Hwx) by (unfold need; lia).
+  apply (indir_loop (ix :: ixs) x c k r f1); auto.
+  - intros f' Hf'. rewrite add_indirs_head by assumption. apply Hloop; assumption.
+  - lia.
+Qed.
+
+Lemma shape_S_comp : forall f n r, parse_shape (Datatypes.S f) (TId n :: TSym S_ASSIGN :: r) =
+  match parse_expr f None r with
+  | Some (e, TSym s2 :: r2) =>
+      if N.eqb s2 S_RBRACE then Some ([(n, Some e)], r2)
+      else if N.eqb s2 S_COMMA then
+        match parse_shape f r2 with Some (els, r3) => Some ((n, Some e) :: els, r3) | None => None end
+      else None
+  | _ => None
+  end.
+Proof. reflexivity. Qed.
+Lemma shape_S_close : forall f n r, parse_shape (Datatypes.S f) (TId n :: TSym S_RBRACE :: r) = Some ([(n, None)], r).
+Proof. reflexivity. Qed.
+Lemma shape_S_comma : forall f n r, parse_shape (Datatypes.S f) (TId n :: TSym S_COMMA :: r) =
+  match parse_shape f r with Some (els, r3) => Some ((n, None) :: els, r3) | None => None end.
+Proof. reflexivity. Qed.
+
+Lemma wf_els : forall els,
+  (fix go (l : list (N * option expr)) : bool :=
+     match l with [] => true | (_, c) :: r => (match c with Some y => wf y | None => true end) && go r end) els =
+  forallb (fun p => match snd p with Some y => wf y | None => true end) els.
+Proof. induction els as [|[n c] r IH]; [reflexivity|]. cbn [forallb snd]. rewrite <- IH. reflexivity. Qed.
+
+Lemma shape_ok : forall els, Forall (fun p => optP Main (snd p)) els ->
+  forallb (fun p => match snd p with Some y => wf y | None => true end) els = true -> els <> [] ->
+  forall k f, 6 * length (tcommas tel els) + 8 <= f ->
+  parse_shape f (tcommas tel els ++ TSym S_RBRACE :: k) = Some (els, k).
+Proof.
+  induction els as [|[n cx] rest IH]; intros HM Hwf Hne k f Hf; [congruence|].
+  inversion HM as [|? ? Mx Mrest]; subst. cbn [snd] in Mx. cbn [forallb snd] in Hwf. apply andb_prop in Hwf as [Hwx Hwrest].
+  destruct rest as [|y rest].
+  - cbn [tcommas tel app length] in *. destruct cx as [x|]; cbn [app length optP] in *.
+    + fuel f. rewrite shape_S_comp. rewrite (sub_hard x Mx Hwx) by (reflexivity || (unfold need; lia)).
+      rewrite N.eqb_refl. reflexivity.
+    + fuel f. rewrite shape_S_close. reflexivity.
+  - rewrite tcommas_cons2 in *. rewrite app_length in Hf. cbn [length] in Hf. rewrite <- app_assoc. cbn [app].
+    destruct cx as [x|]; cbn [tel app length optP] in *.
+    + rewrite <- ?app_assoc. cbn [app]. fuel f. rewrite shape_S_comp.
+      rewrite (sub_hard x Mx Hwx) by (reflexivity || (unfold need; lia)).
+      change (N.eqb S_COMMA S_RBRACE) with false. rewrite N.eqb_refl.
+      rewrite IH; [reflexivity|assumption|assumption|discriminate|lia].
+    + fuel f. rewrite shape_S_comma. rewrite IH; [reflexivity|assumption|assumption|discriminate|lia].
+Qed.
+
+Lemma main_shape : forall x els, Main x -> Forall (fun p => optP Main (snd p)) els -> Main (EShape x els).
+Proof.
+  intros x els Mx HM Hwf c k r f1 Ht Hr Hk Hloop f Hf.
+  cbn [wf] in Hwf. apply andb_prop in Hwf as [Hwf Hwels]. apply andb3 in Hwf as (Hwx & Hrx & Hne).
+  rewrite wf_els in Hwels. cbn [tight] in Ht. apply andb_prop in Ht as [Htx Hsh].
+  unfold need in Hf. rewrite pp_shape in *. rewrite !app_length in Hf. cbn [length] in Hf. rewrite app_length in Hf. cbn [length] in Hf.
+  rewrite <- ?app_assoc. cbn [app]. rewrite <- ?app_assoc. cbn [app].
+  apply (Mx Hwx c _ r (f1 + 6 * length (tcommas tel els) + 9)); auto.
+  - rewrite (rspine_hd x _ _ []). exact Hrx.
+  - intros f' Hf'. fuel f'. rewrite loop_lbrace. rewrite (shifts_decide _ _ Hsh).
+    rewrite shape_ok; [|assumption|assumption|destruct els; [discriminate|discriminate]|lia].
+    apply Hloop. lia.
+  - unfold need. lia.
+Qed.
+
+(* ------------------------------------------------------------------ the theorem *)
+
+Theorem main : forall e, Main e.
+Proof.
+  induction e as [ck nn v|i|m n ss|ss|h ss IHh|o x IHx|o l r IHl IHr|neg l t IHl|py c0 a b IHc IHa IHb|sk es IHes|fs IHfs|m fn args kw IHargs IHkw|opt t x IHx|x ixs IHx IHixs|x IHx|m n|x els IHx IHels] using expr_ind'.
+  - apply main_const.
+  - apply main_param.
+  - apply main_pathref.
+  - apply main_partial.
+  - apply main_pathexpr; assumption.
+  - apply main_un; assumption.
+  - apply main_bin; assumption.
+  - apply main_is; assumption.
+  - apply main_if; assumption.
+  - apply main_seq; assumption.
+  - apply main_named; assumption.
+  - apply main_call; assumption.
+  - apply main_cast; assumption.
+  - apply main_indir; assumption.
+  - apply main_detached; assumption.
+  - apply main_global.
+  - apply main_shape; assumption.
+Qed.
+
+Lemma rspine_nil : forall e, rspine e [] = true.
+Proof. intros e. apply hard_rspine. reflexivity. Qed.
+
+Theorem roundtrip : forall e, wf e = true -> parse (pp e) = Some e.
+Proof.
+  intros e Hwf. unfold parse.
+  pose proof (main e Hwf None [] (e, []) 1 (tight_none e) (rspine_nil e) eq_refl) as H.
+  rewrite app_nil_r in H. rewrite H; [reflexivity| |].
+  - intros f Hf. apply loop_stops; [reflexivity|assumption].
+  - unfold need, fuel_for. lia.
+Qed.
+
+Theorem idempotent : forall e e', wf e = true -> parse (pp e) = Some e' -> pp e' = pp e.
+Proof. intros e e' Hwf H. rewrite roundtrip in H by assumption. inversion H. reflexivity. Qed.
